@@ -317,7 +317,39 @@ func genReadCase(tp *tape.Tape, op string) *readCase {
 			return v, n, err
 		}
 	case "nbt.slice":
-		switch tp.Choose(5) {
+		switch tp.Choose(9) {
+		case 5:
+			rc.doc = nbtgen.Doc(nbtgen.GenTag(tp, nbtgen.LongArray, 0), name, network)
+			rc.dec = func(r io.Reader) (any, int64, error) {
+				var v []uint64
+				_, err := nbtDecoder(r, network, false).Decode(&v)
+				return v, -1, err
+			}
+		case 6:
+			rc.doc = nbtgen.Doc(nbtgen.GenTag(tp, nbtgen.IntArray, 0), name, network)
+			rc.dec = func(r io.Reader) (any, int64, error) {
+				var v []int
+				_, err := nbtDecoder(r, network, false).Decode(&v)
+				return v, -1, err
+			}
+		case 7:
+			rc.doc = nbtgen.Doc(nbtgen.GenTag(tp, nbtgen.ByteArray, 0), name, network)
+			rc.dec = func(r io.Reader) (any, int64, error) {
+				var v []int8
+				_, err := nbtDecoder(r, network, false).Decode(&v)
+				return v, -1, err
+			}
+		case 8:
+			l := &nbtgen.Node{Tag: nbtgen.List, ListType: nbtgen.Long}
+			for i := tp.Choose(6); i > 0; i-- {
+				l.List = append(l.List, nbtgen.GenTag(tp, nbtgen.Long, 0))
+			}
+			rc.doc = nbtgen.Doc(l, name, network)
+			rc.dec = func(r io.Reader) (any, int64, error) {
+				var v []uint64
+				_, err := nbtDecoder(r, network, false).Decode(&v)
+				return v, -1, err
+			}
 		case 0:
 			rc.doc = nbtgen.Doc(nbtgen.GenTag(tp, nbtgen.IntArray, 0), name, network)
 			rc.dec = func(r io.Reader) (any, int64, error) {
